@@ -1600,18 +1600,18 @@ Proof.
       pose proof (rc_ndel_bound (f_recs f0)) as Hb. rewrite <- (rc_ndel_entries f0) in *.
       rewrite rc_csum_count; lia. }
     assert (Hzero2 : forall g2 f, In g2 (m_segs m2) -> In f D -> g_id g2 = f_id f -> sm_delrec (g_meta g2) = 0).
-    { intros g2 f Hg2 Hf Eid. destruct (Hfrom g2 Hg2) as (g & Hg & E1 & E2).
+    { intros g2 fx Hg2 Hfx Eid. destruct (Hfrom g2 Hg2) as (g & Hg & E1 & E2).
       destruct (N.eqb_spec (g_id g) (f_id f0)) as [E|Hne].
-      - exfalso. apply Hf0D. rewrite <- E, <- E1, Eid. apply in_map. exact Hf.
-      - rewrite E2. apply (Hzero g f Hg (or_intror Hf)). congruence. }
-    destruct (R13 HndD' Hzero2 g' Hg') as [(f & Hf & B1 & B2)|(Hno & g2 & Hg2 & B1 & B2)].
-    + left. exists f. split; [right; exact Hf|auto].
+      - exfalso. apply Hf0D. rewrite <- E, <- E1, Eid. apply in_map. exact Hfx.
+      - rewrite E2. apply (Hzero g fx Hg (or_intror Hfx)). congruence. }
+    destruct (R13 HndD' Hzero2 g' Hg') as [(fx & Hfx & B1 & B2)|(Hno & g2 & Hg2 & B1 & B2)].
+    + left. exists fx. split; [right; exact Hfx|auto].
     + destruct (Hfrom g2 Hg2) as (g & Hg & E1 & E2).
       destruct (N.eqb_spec (g_id g) (f_id f0)) as [E|Hne].
       * left. exists f0. split; [left; reflexivity|]. split; [congruence|].
         rewrite <- B2, E2, (Hzero g f0 Hg (or_introl eq_refl) E). exact Hcnt.
       * right. split.
-        -- intros f [<-|Hf]; [congruence|apply Hno; exact Hf].
+        -- intros fx [<-|Hfx]; [congruence|apply Hno; exact Hfx].
         -- exists g. split; [exact Hg|]. split; congruence.
 Qed.
 
@@ -1721,6 +1721,13 @@ Proof.
   destruct Hg as (g' & Eg & Hg'). unfold rc_msig0 in Eg. exists g'. repeat split; congruence.
 Qed.
 
+Lemma rc_sealf_delrec R : forall g, sm_delrec (g_meta (rc_sealf R g)) = sm_delrec (g_meta g).
+Proof.
+  induction R as [|g0 R IH]; intros g; [reflexivity|].
+  unfold rc_sealf. cbn [fold_left]. fold (rc_sealf R (rc_sealstep g0 g)). rewrite IH.
+  unfold rc_sealstep. destruct (g_id g =? g_id g0); reflexivity.
+Qed.
+
 Section Recover.
 Variable P : params.
 
@@ -1729,13 +1736,19 @@ Lemma rc_recover_spec (s : st) (m : mem) :
   ids_increasing (m_segs m) -> m_idx m = [] -> (forall g, In g (m_segs m) -> sm_full (g_meta g) = false) ->
   (forall g, In g (m_segs m) -> g_seq g <= m_maxseq m) -> cur_ok m ->
   bac_ok (s_disk s) -> d_lock (s_disk s) = true -> d_overflow (s_disk s) = true ->
+  m_segs m <> [] -> (forall g, In g (m_segs m) -> sm_delrec (g_meta g) = 0) ->
   exists s' m', recover flat_ops P s m = (s', m') /\ Inv P (with_mem m' s') /\
     olog (s_disk s') = olog (s_disk s) /\ d_bac (s_disk s') = [] /\ m_seed m' = m_seed m /\
     s_mem s' = s_mem s /\
     (forall i off, rec_of (s_disk s') i off = rec_of (s_disk s) i off) /\
-    m_idx m' = rc_ridx P (s_disk s') (m_seed m) (olog (s_disk s')) [].
+    m_idx m' = rc_ridx P (s_disk s') (m_seed m) (olog (s_disk s')) [] /\
+    (* D13: the newest segment is the current one and accepts writes *)
+    m_cur_removed m' = false /\
+    (exists g, In g (m_segs m') /\ (g_id g, g_seq g) = m_cur m' /\ sm_full (g_meta g) = false /\
+               forall g', In g' (m_segs m') -> g_seq g' <= g_seq g) /\
+    MetaOK (with_mem m' s').
 Proof.
-  intros Hok Hpre Hag Hinc Hidx Hnf Hmax Hcur Hbac Hlock Hov.
+  intros Hok Hpre Hag Hinc Hidx Hnf Hmax Hcur Hbac Hlock Hov Hne0 Hzero.
   set (d4 := s_disk s) in *. pose proof Hok as (Hdok & Hnd4 & Hnq4).
   unfold recover.
   set (order := by_seq (m_segs m)).
@@ -1746,17 +1759,44 @@ Proof.
   assert (HI0 : rc_IdxInv P d4 (m_seed m) [] (m_idx m)) by (rewrite Hidx; apply rc_IdxInv_nil).
   destruct (rc_recover_loop P d4 (m_seed m) (dby_seq (d_segs d4)) Hok (fun f Hf => proj1 (dby_seq_In _ _) Hf)
               s m [] (rc_rsim_refl d4) Hpre Hag HI0 eq_refl)
-    as (s1 & m1 & E1 & R1 & R2 & R3 & R4 & R5 & R6 & R7 & R8 & R9 & R10 & R11 & R12).
+    as (s1 & m1 & E1 & R1 & R2 & R3 & R4 & R5 & R6 & R7 & R8 & R9 & R10 & R11 & R12 & R13).
   change (map (fun f => (f_id f, f_seq f)) (dby_seq (d_segs d4))) with (map rc_fpair (dby_seq (d_segs d4))) in *.
   rewrite E1. cbn [app] in R6. change (concat (map dseg_entries (dby_seq (d_segs d4)))) with (olog d4) in R6.
   destruct (rc_seal_all_spec order m1) as (S1 & S2 & S3 & S4 & S5 & S6). cbv zeta in *.
   set (m2 := seal_all_but_last order m1) in *.
+  (* the newest segment stays writable: swapSegment picks it and emits nothing *)
+  assert (Hswap : exists gc, In gc (m_segs m2) /\ sm_full (g_meta gc) = false /\
+                    swap_segment flat_ops s1 m2 = (s1, set_cur m2 (g_id gc, g_seq gc) false)).
+  { assert (Hex : exists gl, In gl (m_segs m2) /\ sm_full (g_meta gl) = false).
+    { assert (Hneo : order <> []).
+      { intros E. apply Hne0. apply Permutation_nil. rewrite <- E. apply rc_by_seq_perm. }
+      destruct (exists_last Hneo) as (R' & g0 & Eo).
+      assert (ER : removelast order = R') by (rewrite Eo; apply removelast_last).
+      assert (Hg0 : In g0 (m_segs m)).
+      { apply (proj1 (rc_by_seq_In _ _)). change (In g0 order). rewrite Eo. apply in_or_app. right. left. reflexivity. }
+      destruct (rc_msig0_In _ _ g0 (eq_sym R11) Hg0) as (g1 & Hg1 & C1 & C2 & C3).
+      exists (rc_sealf (removelast order) g1). split; [rewrite S1; apply in_map; exact Hg1|].
+      destruct (rc_sealf_fields (removelast order) g1) as (_ & _ & _ & F4). rewrite F4, C3, (Hnf g0 Hg0). cbn [orb].
+      rewrite ER.
+      destruct (existsb (fun x => g_id g1 =? g_id x) R') eqn:Ex; [|reflexivity].
+      exfalso. apply existsb_exists in Ex. destruct Ex as (x & Hx & Ex). apply N.eqb_eq in Ex.
+      assert (Hndo : NoDup (map g_id order)).
+      { apply (Permutation_NoDup (l := map g_id (m_segs m))); [apply Permutation_map; symmetry; apply rc_by_seq_perm|].
+        apply ids_increasing_NoDup. exact Hinc. }
+      rewrite Eo, map_app in Hndo. cbn [map] in Hndo. apply NoDup_remove_2 in Hndo. apply Hndo.
+      rewrite app_nil_r. rewrite <- C1, Ex. apply in_map. exact Hx. }
+    destruct Hex as (gl & Hgl & Hglf). unfold swap_segment.
+    destruct (find (fun g => negb (sm_full (g_meta g))) (m_segs m2)) as [gc|] eqn:Ef.
+    - apply find_some in Ef. destruct Ef as [Hgc Hn]. apply negb_true_iff in Hn. exists gc. auto.
+    - exfalso. pose proof (find_none _ _ Ef gl Hgl) as Hn. cbn beta in Hn. rewrite Hglf in Hn. discriminate. }
+  destruct Hswap as (gc & Hgc & Hgcf & Eswap). rewrite Eswap.
+  set (m3 := set_cur m2 (g_id gc, g_seq gc) false).
   set (s2 := emit flat_ops (EIndex (m_idx m2)) s1).
   destruct R3 as (Q1 & Q2 & Q3 & Q4 & Q5 & Q6 & Q7).
   assert (Hbac2 : bac_ok (s_disk s2)) by (unfold bac_ok; cbn [s2 emit s_disk apply_ev set_index d_bac]; rewrite Q7; exact Hbac).
   destruct (rc_remove_bac_spec s2 Hbac2) as (B1 & B2 & B3 & B4 & B5 & B6). cbv zeta in *.
   set (s3 := remove_bac flat_ops s2) in *.
-  exists s3, m2. split; [reflexivity|].
+  exists s3, m3. split; [reflexivity|].
   assert (Esegs : d_segs (s_disk s3) = d_segs (s_disk s1)) by (rewrite B1; reflexivity).
   assert (Hsim3 : rc_rsim d4 (s_disk s3)) by (eapply rc_rsim_trans; [exact R1|apply rc_rsim_segs; exact Esegs]).
   (* every segment of the final disk is the cleaned version of a segment of d4 *)
@@ -1813,11 +1853,8 @@ Proof.
       rewrite Eo in Hg0'. apply in_app_or in Hg0'. destruct Hg0' as [Hin|[E|[]]].
       + rewrite Hlast. apply (rc_sorted_app_last _ _ _ Hsorted). exact Hin.
       + rewrite Hlast, <- E. lia. }
-  assert (Hcur2 : cur_ok m2).
-  { unfold cur_ok. rewrite S2, S3, R8, R9. intros Hr. destruct (Hcur Hr) as (g0 & Hg0 & A1 & A2).
-    destruct (rc_msig0_In _ _ g0 (eq_sym R11) Hg0) as (g1 & Hg1 & C1 & C2 & _).
-    destruct (rc_sealf_fields (removelast order) g1) as (F1 & F2 & _).
-    exists (rc_sealf (removelast order) g1). split; [rewrite S1; apply in_map; exact Hg1|]. split; congruence. }
+  assert (Hcur2 : cur_ok m3).
+  { intros _. exists gc. split; [exact Hgc|]. split; reflexivity. }
   assert (Hia : index_agrees P m2 (s_disk s3)).
   { apply (rc_rsim_index_agrees P m2 d4 (s_disk s3) Hsim3). unfold index_agrees. rewrite S5, S6, R7. exact R6. }
   split.
@@ -1827,12 +1864,28 @@ Proof.
     split; [rewrite B4; cbn [s2 emit s_disk apply_ev set_index d_lock]; rewrite Q6; exact Hlock|].
     split; [rewrite B2; reflexivity|].
     rewrite B3. cbn [s2 emit s_disk apply_ev set_index d_overflow]. rewrite Q3. exact Hov. }
-  split; [apply rc_rsim_olog; exact Hsim3|]. split; [exact B5|]. split; [rewrite S6; exact R7|].
+  split; [apply rc_rsim_olog; exact Hsim3|]. split; [exact B5|].
+  split; [change (m_seed m3) with (m_seed m2); rewrite S6; exact R7|].
   split; [rewrite B6; cbn [s2 emit s_mem]; exact R4|].
   split; [intros i off; apply rc_rsim_rec_of; exact Hsim3|].
-  rewrite S5, R12, Hidx, (rc_rsim_olog _ _ Hsim3).
-  change (concat (map dseg_entries (dby_seq (d_segs d4)))) with (olog d4).
-  symmetry. apply rc_ridx_ext. intros i off. apply rc_rsim_rec_of. exact Hsim3.
+  split.
+  { change (m_idx m3) with (m_idx m2). rewrite S5, R12, Hidx, (rc_rsim_olog _ _ Hsim3).
+    change (concat (map dseg_entries (dby_seq (d_segs d4)))) with (olog d4).
+    symmetry. apply rc_ridx_ext. intros i off. apply rc_rsim_rec_of. exact Hsim3. }
+  split; [reflexivity|]. split.
+  { exists gc. split; [exact Hgc|]. split; [reflexivity|]. split; [exact Hgcf|].
+    intros g' Hg'. apply (proj2 Hseqo); assumption. }
+  unfold MetaOK. cbn [with_mem s_mem s_disk]. intros g f Hg Hfind.
+  destruct (Hseg2 g Hg) as (g1 & Hg1 & ->). rewrite rc_sealf_delrec.
+  destruct (rc_sealf_fields (removelast order) g1) as (F1 & _). rewrite F1 in Hfind.
+  assert (HndD : NoDup (map f_id (dby_seq (d_segs d4)))).
+  { apply (Permutation_NoDup (l := map f_id (d_segs d4))); [apply Permutation_map; symmetry; apply dby_seq_perm|exact Hnd4]. }
+  destruct (R13 HndD (fun g0 f0 Hg0 _ _ => Hzero g0 Hg0) g1 Hg1) as [(f0 & Hf0 & B7 & B8)|(Hno & g0 & Hg0 & B7 & _)].
+  - apply (proj1 (dby_seq_In _ _)) in Hf0.
+    destruct (rc_rsim_find d4 (s_disk s3) (f_id f0) f0 Hsim3 (find_dseg_unique d4 f0 Hnd4 Hf0)) as (f' & Hf' & Ec).
+    rewrite B7, Hf' in Hfind. inversion Hfind; subst f'. rewrite B8. unfold rc_rcore in Ec. congruence.
+  - exfalso. destruct (proj1 Hag g0 Hg0) as (fx & Hfx & A1 & _).
+    apply (Hno fx); [apply (proj2 (dby_seq_In _ _)); exact Hfx|congruence].
 Qed.
 
 End Recover.
@@ -1984,8 +2037,13 @@ Lemma open_recover_gen seed (s0 : st) :
   olog (s_disk s') = olog (s_disk s0) /\
   (exists m', s_mem s' = Some m' /\ m_seed m' = seed /\
               (* the index is the canonical replay of the log of the recovered disk *)
-              m_idx m' = rc_ridx P (s_disk s') seed (olog (s_disk s')) []) /\
-  (forall i off, rec_of (s_disk s') i off = rec_of (s_disk s0) i off).
+              m_idx m' = rc_ridx P (s_disk s') seed (olog (s_disk s')) [] /\
+              (* D13: the current segment after a recovery is the newest one and accepts writes *)
+              m_cur_removed m' = false /\
+              (exists g, In g (m_segs m') /\ (g_id g, g_seq g) = m_cur m' /\ sm_full (g_meta g) = false /\
+                         forall g', In g' (m_segs m') -> g_seq g' <= g_seq g)) /\
+  (forall i off, rec_of (s_disk s') i off = rec_of (s_disk s0) i off) /\
+  MetaOK s'.
 Proof.
   intros Hmem0 Hok Hbac Hlock. set (d := s_disk s0) in *.
   unfold db_open. rewrite Hmem0. fold d.
@@ -2008,7 +2066,7 @@ Proof.
   destruct C7 as (Q1 & Q2 & Q3 & Q4 & Q5 & Q6 & Q7).
   assert (Hmaxseq : forall g, In g segs -> g_seq g <= maxseq) by (apply (rc_fold_max_ge segs 0)).
   (* the preconditions of recover, in both cases of swapSegment *)
-  assert (Hpre : DiskOK (s_disk s4) /\ Forall rc_seg_pre (d_segs (s_disk s4)) /\ rc_magree (m_segs m1) (s_disk s4) /\
+  assert (Hpre : (forall g, In g (m_segs m1) -> g_meta g = smeta0) /\ DiskOK (s_disk s4) /\ Forall rc_seg_pre (d_segs (s_disk s4)) /\ rc_magree (m_segs m1) (s_disk s4) /\
                  ids_increasing (m_segs m1) /\ m_idx m1 = [] /\
                  (forall g, In g (m_segs m1) -> sm_full (g_meta g) = false) /\
                  (forall g, In g (m_segs m1) -> g_seq g <= m_maxseq m1) /\
@@ -2020,6 +2078,7 @@ Proof.
                  (forall i off, rec_of (s_disk s4) i off = rec_of (s_disk s3) i off)).
   { destruct Hcase as [(g & Hg & Hnf & -> & ->)|(Hfull & Em1 & Ed4 & Erest4 & Emem4 & Hfresh)].
     - cbn [set_cur m_segs m_cur m_cur_removed m_maxseq m_idx m0 fst snd].
+      split; [exact C5|].
       split; [exact C1|]. split; [exact C2|]. split; [exact C3|]. split; [exact C4|]. split; [reflexivity|].
       split; [intros x Hx; rewrite (C5 x Hx); reflexivity|]. split; [exact Hmaxseq|].
       split; [exists g; auto|]. repeat split.
@@ -2027,6 +2086,7 @@ Proof.
       destruct (rc_create_spec (s_disk s3) (s_disk s4) segs maxseq (lowest_free 0 segs) (maxseq + 1)
                   C1 C3 C4 Hmaxseq eq_refl Hfresh Ed4) as (K1 & K2 & K3 & K4 & K5).
       rewrite Em1. cbn [set_cur set_maxseq set_msegs m_segs m_cur m_cur_removed m_maxseq m_idx m0 fst snd].
+      split; [intros x Hx; apply insert_mseg_In in Hx; destruct Hx as [->|Hx]; [reflexivity|exact (C5 x Hx)]|].
       split; [exact K1|]. split.
       { rewrite Ed4. apply Forall_app. split; [exact C2|]. constructor; [|constructor].
         split; [reflexivity|apply rc_tail_stuck_nil]. }
@@ -2037,22 +2097,25 @@ Proof.
         pose proof (Hmaxseq x Hx). lia. }
       split; [exists (rc_newg (lowest_free 0 segs) (maxseq + 1)); split; [apply insert_mseg_In; left; reflexivity|split; reflexivity]|].
       destruct Erest4 as (R1 & R2 & R3 & R4 & R5 & R6 & R7). repeat split; try assumption. }
-  destruct Hpre as (P1 & P2 & P3 & P4 & P5 & P6 & P7 & P8 & P9 & P10 & P11 & P12 & P13 & P14 & P15).
+  destruct Hpre as (P0 & P1 & P2 & P3 & P4 & P5 & P6 & P7 & P8 & P9 & P10 & P11 & P12 & P13 & P14 & P15).
   set (m2 := {| m_segs := m_segs m1; m_cur := m_cur m1; m_cur_removed := m_cur_removed m1;
                 m_maxseq := m_maxseq m1; m_idx := m_idx m1; m_seed := seed |}).
   assert (Hcur2 : cur_ok m2) by (intros _; exact P8).
   assert (Hbac4 : bac_ok (s_disk s4)) by (unfold bac_ok; rewrite P10, Q7, B3; exact A3).
   assert (Hlock4 : d_lock (s_disk s4) = true) by (rewrite P11, Q6, B2, A2; exact Hlock).
   assert (Hov4 : d_overflow (s_disk s4) = true) by (rewrite P12, Q3; exact B5).
-  destruct (rc_recover_spec P s4 m2 P1 P2 P3 P4 P5 P6 P7 Hcur2 Hbac4 Hlock4 Hov4)
-    as (s5 & m3 & E5 & HI & Holog & Hb5 & Hseed & Hmem5 & Hrec5 & Hridx).
+  assert (Hne2 : m_segs m2 <> []) by (destruct P8 as (gx & Hgx & _); intros E; cbn [m2 m_segs] in E; rewrite E in Hgx; destruct Hgx).
+  assert (Hz2 : forall g, In g (m_segs m2) -> sm_delrec (g_meta g) = 0) by (intros g Hg; rewrite (P0 g Hg); reflexivity).
+  destruct (rc_recover_spec P s4 m2 P1 P2 P3 P4 P5 P6 P7 Hcur2 Hbac4 Hlock4 Hov4 Hne2 Hz2)
+    as (s5 & m3 & E5 & HI & Holog & Hb5 & Hseed & Hmem5 & Hrec5 & Hridx & Hrm & Hcurg & Hmeta).
   rewrite E5.
   assert (Hlog : olog (s_disk s5) = olog d).
   { rewrite Holog, P13, (rc_rsim_olog _ _ C6). apply same_log_olog. exact Hsl2. }
   split; [reflexivity|]. split; [exact HI|]. split; [discriminate|].
   split; [intros k; unfold abs; cbn [with_mem s_disk]; rewrite Hlog; reflexivity|].
   split; [exact Hb5|]. split; [exact Hlog|].
-  split; [exists m3; split; [reflexivity|]; split; [exact Hseed|exact Hridx]|].
+  split; [exists m3; split; [reflexivity|]; split; [exact Hseed|]; split; [exact Hridx|]; split; [exact Hrm|exact Hcurg]|].
+  split; [|exact Hmeta].
   intros i off. cbn [with_mem s_disk]. rewrite Hrec5, P15, (rc_rsim_rec_of _ _ _ _ C6). apply same_log_rec_of. exact Hsl2.
 Qed.
 
@@ -2065,8 +2128,14 @@ Theorem open_recover_ok seed (d : disk) :
   (* more: the log itself is unchanged, the seed is the fresh one, the index is the canonical replay *)
   olog (s_disk s') = olog d /\
   (exists m', s_mem s' = Some m' /\ m_seed m' = seed /\
-              m_idx m' = rc_ridx P (s_disk s') seed (olog (s_disk s')) []) /\
-  (forall i off, rec_of (s_disk s') i off = rec_of d i off).
+              m_idx m' = rc_ridx P (s_disk s') seed (olog (s_disk s')) [] /\
+              (* D13: the current segment after a recovery is the newest one and accepts writes *)
+              m_cur_removed m' = false /\
+              (exists g, In g (m_segs m') /\ (g_id g, g_seq g) = m_cur m' /\ sm_full (g_meta g) = false /\
+                         forall g', In g' (m_segs m') -> g_seq g' <= g_seq g)) /\
+  (forall i off, rec_of (s_disk s') i off = rec_of d i off) /\
+  (* recovery rebuilds the DeleteRecords counters *)
+  MetaOK s'.
 Proof.
   intros _ Hok Hbac Hlock.
   apply (open_recover_gen seed {| s_mem := None; s_disk := d; s_trace := [] |}); [reflexivity|exact Hok|exact Hbac|exact Hlock].
@@ -2086,13 +2155,13 @@ Theorem recover_idempotent seed seed2 (d : disk) :
 Proof.
   intros Hp Hok Hbac Hlock. pose proof (open_recover_ok seed d Hp Hok Hbac Hlock) as H1.
   destruct (db_open flat_ops P seed {| s_mem := None; s_disk := d; s_trace := [] |}) as [s1 o1].
-  destruct H1 as (_ & HI1 & Hm1 & Habs1 & Hb1 & Hlog1 & (m1 & Em1 & Hseed1 & Hidx1) & _).
+  destruct H1 as (_ & HI1 & Hm1 & Habs1 & Hb1 & Hlog1 & (m1 & Em1 & Hseed1 & Hidx1 & _) & _).
   unfold Inv in HI1. rewrite Em1 in HI1. destruct HI1 as (Hok1 & _ & _ & _ & _ & _ & Hlock1 & _).
   assert (Hbac1 : bac_ok (s_disk s1)) by (unfold bac_ok; rewrite Hb1; constructor).
   pose proof (open_recover_gen seed2 {| s_mem := None; s_disk := s_disk s1; s_trace := s_trace s1 |}
                 eq_refl Hok1 Hbac1 Hlock1) as H2.
   destruct (db_open flat_ops P seed2 {| s_mem := None; s_disk := s_disk s1; s_trace := s_trace s1 |}) as [s2 o2].
-  cbn [s_disk] in H2. destruct H2 as (Ho2 & HI2 & Hm2 & Habs2 & Hb2 & Hlog2 & (m2 & Em2 & Hseed2 & Hidx2) & Hrec2).
+  cbn [s_disk] in H2. destruct H2 as (Ho2 & HI2 & Hm2 & Habs2 & Hb2 & Hlog2 & (m2 & Em2 & Hseed2 & Hidx2 & _) & Hrec2 & _).
   split; [exact Ho2|]. split; [exact HI2|]. split; [exact Hm2|]. split; [exact Habs2|].
   split; [intros k; rewrite Habs2; apply Habs1|]. split; [exact Hlog2|]. split; [exact Hb2|].
   intros ->. exists m1, m2. split; [exact Em1|]. split; [exact Em2|].
@@ -2138,7 +2207,8 @@ Lemma close_reopen_master seed' (s : st) (m : mem) :
     d_index (s_disk s1) = Some (m_idx m) /\ d_imeta (s_disk s1) = GOk (m_idx m) /\
     (forall f1, In f1 (d_segs (s_disk s1)) ->
        exists g, In g (m_segs m) /\ f_id f1 = g_id g /\ f_seq f1 = g_seq g /\ f_meta f1 = GOk (g_meta g)) /\
-    d_bac (s_disk s2) = d_bac (s_disk s).
+    d_bac (s_disk s2) = d_bac (s_disk s) /\
+    (MetaOK s -> MetaOK s2).
 Proof.
   intros HI Hm. pose proof HI as HI'. unfold Inv in HI'. rewrite Hm in HI'.
   destruct HI' as (Hok & Hmda & Hinc & Hseq & Hcur & Hidx & Hlock & Hdi & Hov).
@@ -2205,8 +2275,16 @@ Proof.
   set (m2 := {| m_segs := m_segs m1; m_cur := m_cur m1; m_cur_removed := m_cur_removed m1;
                 m_maxseq := m_maxseq m1; m_idx := m_idx m1; m_seed := sd |}).
   exists (with_mem m2 s4), m2.
+  assert (HfindA : forall g f, In g segs -> find_dseg (g_id g) (s_disk s0) = Some f ->
+            exists f0, In g (m_segs m) /\ find_dseg (g_id g) d = Some f0 /\ f_recs f = f_recs f0).
+  { intros g f Hg Hfind.
+    destruct (rc_rsim_find (s_disk s0) d (g_id g) f (rc_rsim_sym _ _ (rc_same_log_rsim _ _ Hsl0)) Hfind) as (f0 & Hf0 & Ec).
+    exists f0. split; [apply Hsegs_eq; exact Hg|]. split; [exact Hf0|]. unfold rc_rcore in Ec. congruence. }
   (* facts about the state after swapSegment, in both cases *)
-  assert (Hpost : DiskOK (s_disk s4) /\ mem_disk_agree m2 (s_disk s4) /\ ids_increasing (m_segs m1) /\
+  assert (Hpost : (forall g f, In g (m_segs m1) -> find_dseg (g_id g) (s_disk s4) = Some f ->
+                     (exists f0, In g (m_segs m) /\ find_dseg (g_id g) d = Some f0 /\ f_recs f = f_recs f0) \/
+                     (g_meta g = smeta0 /\ f_recs f = [])) /\
+                  DiskOK (s_disk s4) /\ mem_disk_agree m2 (s_disk s4) /\ ids_increasing (m_segs m1) /\
                   seq_order m2 /\ cur_ok m2 /\ m_idx m1 = m_idx m /\
                   (forall i off, rec_of (s_disk s4) i off = rec_of d i off) /\ olog (s_disk s4) = olog d /\
                   d_lock (s_disk s4) = true /\ d_index (s_disk s4) = Some (m_idx m) /\ d_overflow (s_disk s4) = true /\
@@ -2214,6 +2292,7 @@ Proof.
                   (forall g, In g (m_segs m) -> In g (m_segs m1))).
   { destruct Hcase as [(g & Hg & Hnf & -> & ->)|(Hfull & Em1' & Ed4 & Erest4 & Emem4 & Hfresh)].
     - cbn [set_cur m_segs m_cur m_cur_removed m_maxseq m_idx m0 fst snd].
+      split; [intros x f Hx Hfind; left; apply (HfindA x f Hx Hfind)|].
       split; [exact Hok0|]. split.
       { unfold m2. split; cbn [m_segs set_cur m0].
         - intros x Hx. apply Hsegs_eq in Hx. destruct (proj1 Hmda x Hx) as (f0 & Hf0 & A1 & A2 & A3 & A4 & A5).
@@ -2234,6 +2313,19 @@ Proof.
                   Hok0 Hag0 Hincs Hmaxseq eq_refl Hfresh Ed4) as (K1 & K2 & K3 & K4 & K5).
       destruct Erest4 as (R1 & R2 & R3 & R4 & R5 & R6 & R7).
       rewrite Em1'. cbn [set_cur set_maxseq set_msegs m_segs m_cur m_cur_removed m_maxseq m_idx m0 fst snd].
+      split.
+      { intros x f Hx Hfind. unfold find_dseg in Hfind. rewrite Ed4, rc_find_app in Hfind.
+        fold (find_dseg (g_id x) (s_disk s0)) in Hfind.
+        apply insert_mseg_In in Hx. destruct Hx as [->|Hx].
+        - right. split; [reflexivity|].
+          destruct (find_dseg (g_id (rc_newg (lowest_free 0 segs) (maxseq + 1))) (s_disk s0)) as [fx|] eqn:Ex.
+          + exfalso. apply find_dseg_In in Ex. destruct Ex as [Hfx Eid]. cbn [rc_newg g_id] in Eid.
+            destruct (proj2 Hag0 fx Hfx) as (gx & Hgx & A1 & _). apply (Hfresh gx Hgx). congruence.
+          + cbn [find rc_newf f_id] in Hfind. rewrite N.eqb_refl in Hfind. inversion Hfind. reflexivity.
+        - left. destruct (find_dseg (g_id x) (s_disk s0)) as [fx|] eqn:Ex.
+          + inversion Hfind; subst fx. apply (HfindA x f Hx Ex).
+          + exfalso. destruct (proj1 Hag0 x Hx) as (fx & Hfx & A1 & _).
+            apply (proj1 (find_dseg_None _ _) Ex fx Hfx). exact A1. }
       split; [exact K1|]. split.
       { unfold m2. rewrite Em1'. split; cbn [m_segs set_cur set_maxseq set_msegs m0].
         - intros x Hx. apply insert_mseg_In in Hx. destruct Hx as [->|Hx].
@@ -2261,7 +2353,7 @@ Proof.
       split; [rewrite K4; apply same_log_olog; exact Hsl0|].
       rewrite R6, R2, R3, R5, R7. repeat (split; [assumption|]).
       intros x Hx. apply insert_mseg_In. right. apply Hsegs_eq. exact Hx. }
-  destruct Hpost as (T1 & T2 & T3 & T4 & T5 & T6 & T7 & T8 & T9 & T10 & T11 & T12 & T13 & T14).
+  destruct Hpost as (T0 & T1 & T2 & T3 & T4 & T5 & T6 & T7 & T8 & T9 & T10 & T11 & T12 & T13 & T14).
   split; [exact E1|]. split.
   { unfold db_open. rewrite rc_mem_clear, Em1. rewrite rc_disk_clear. fold d1. rewrite El1. cbv beta iota.
     fold s0. rewrite (rc_open_index_existing s0 (m_idx m) (m_idx m) D2 D3 D4), E3. cbv zeta. fold maxseq. fold m0.
@@ -2278,10 +2370,14 @@ Proof.
     - split; [exact T9|]. split; [|exact T11]. unfold m2. cbn [m_idx]. rewrite T6. exact T10. }
   split; [reflexivity|]. split; [exact T8|]. split; [apply same_log_olog; exact Hsl1|].
   split; [exact T6|]. split; [exact T14|]. split; [reflexivity|]. split; [fold d1; congruence|].
-  split; [exact Eim1|]. split; [|exact T13].
-  intros f1 Hf1. fold d1 in Hf1. rewrite Es1 in Hf1. apply in_map_iff in Hf1. destruct Hf1 as (f0 & <- & Hf0).
-  destruct (Hfg f0 Hf0) as (g & Hg & A1 & A2 & _). exists g. split; [exact Hg|].
-  rewrite (Hw f0 g Hf0 Hg A1 A2). cbn [set_fmeta f_id f_seq f_meta]. auto.
+  split; [exact Eim1|]. split; [|split; [exact T13|]].
+  { intros f1 Hf1. fold d1 in Hf1. rewrite Es1 in Hf1. apply in_map_iff in Hf1. destruct Hf1 as (f0 & <- & Hf0).
+    destruct (Hfg f0 Hf0) as (g & Hg & A1 & A2 & _). exists g. split; [exact Hg|].
+    rewrite (Hw f0 g Hf0 Hg A1 A2). cbn [set_fmeta f_id f_seq f_meta]. auto. }
+  intros HM. unfold MetaOK in HM. rewrite Hm in HM. unfold MetaOK. cbn [with_mem s_mem s_disk].
+  intros g f Hg Hfind. destruct (T0 g f Hg Hfind) as [(f0 & Hgm & Hf0 & Er)|(Emt & Er)].
+  - rewrite Er. exact (HM g f0 Hgm Hf0).
+  - rewrite Emt, Er. reflexivity.
 Qed.
 
 End Reopen.
@@ -2290,6 +2386,27 @@ Section ReopenTheorems.
 Variable P : params.
 
 Theorem close_reopen_ok seed' (s : st) (m : mem) :
+  params_ok P -> Inv P s -> s_mem s = Some m -> MetaOK s ->
+  let '(s1, _) := db_close flat_ops s in
+  let '(s2, o) := db_open flat_ops P seed' (clear_trace s1) in
+  o = OOpened false /\ Inv P s2 /\
+  (forall k, sget (abs (s_disk s2)) k = sget (abs (s_disk s)) k) /\
+  (exists m2, s_mem s2 = Some m2 /\ m_idx m2 = m_idx m /\
+             (forall g, In g (m_segs m) -> In g (m_segs m2)) /\
+             m_seed m2 = (if ix_count flat_ops (m_idx m) =? 0 then seed' else m_seed m)) /\
+  (* the side files are read back exactly; a segment created by swapSegment has counter 0, no records *)
+  MetaOK s2.
+Proof.
+  intros _ HI Hm HM.
+  destruct (close_reopen_master P seed' s m HI Hm)
+    as (s1 & s2 & m2 & E1 & E2 & HI2 & Hm2 & Hlog2 & _ & Hidx & Hsegs & Hseed & _ & _ & _ & _ & HM2).
+  rewrite E1, E2. split; [reflexivity|]. split; [exact HI2|].
+  split; [intros k; unfold abs; rewrite Hlog2; reflexivity|].
+  split; [exists m2; auto|]. apply HM2. exact HM.
+Qed.
+
+(* the same without the metadata invariant (statement as before D13/MetaOK) *)
+Theorem close_reopen_ok_nometa seed' (s : st) (m : mem) :
   params_ok P -> Inv P s -> s_mem s = Some m ->
   let '(s1, _) := db_close flat_ops s in
   let '(s2, o) := db_open flat_ops P seed' (clear_trace s1) in
@@ -2459,6 +2576,7 @@ Print Assumptions close_ok.
 Print Assumptions open_recover_ok.
 Print Assumptions recover_idempotent.
 Print Assumptions close_reopen_ok.
+Print Assumptions close_reopen_ok_nometa.
 Print Assumptions reopen_close_same_log.
 Print Assumptions apply_ev_bac_ok.
 Print Assumptions sealed_empty_refuted.
